@@ -524,6 +524,7 @@ impl Run {
                         }
                         Err(e) => {
                             let (k, m) = err_kind_msg(&e);
+                            self.out.error_text = Some(e.to_string().lines().next().unwrap_or("").to_string());
                             self.finish(format!("error:{}:{}", k, m));
                             return;
                         }
